@@ -101,7 +101,7 @@ func New(id, level string) *Report {
 	if d == 0 {
 		d = 240
 		if r.Tier == "thorough" {
-			d = 1500
+			d = 2700
 		}
 	}
 	r.Deadline = r.start.Add(time.Duration(d) * time.Second)
@@ -272,6 +272,9 @@ func (r *Report) Finish() {
 		cov["states"] = r.States
 		cov["transitions"] = r.Transitions
 		cov["traces_validated_against_impl"] = r.TracesImpl
+	}
+	if f := strings.Trim(os.Getenv("VERIF_FINE"), ", "); f != "" {
+		r.Extra["statement_level_scheduling_points_in"] = strings.Split(f, ",")
 	}
 	for k, v := range r.Extra {
 		cov[k] = v
